@@ -188,7 +188,7 @@ func c17Case(run *evid.Run, i int) {
 		}
 		res := x.Do(k)
 		if s.ExpectsError() {
-			run.Count("refused_operations", 1)
+			countRefused(run, s)
 			if res.Err != nil {
 				if df := obsEqual(beforeRefused, hx.Observe(l)); df != "" {
 					run.Violate("C17/refused-op-changed", det("op", s.Op), wit(where), "%s returned an error but changed the log: %s", s.Op, df)
